@@ -311,22 +311,6 @@ func TestVP_C20_round_links(t *testing.T) {
 	})
 }
 
-// vpC20Shift inserts prefix before a drawn workload (step indexes in Prev move).
-func vpC20Shift(prefix, steps []vpCWStep) []vpCWStep {
-	out := append([]vpCWStep{}, prefix...)
-	for _, st := range steps {
-		switch st.Kind {
-		case "transfer", "custodian", "pledge", "accept":
-			st.Prev += len(prefix)
-		}
-		out = append(out, st)
-	}
-	if len(steps) > 0 {
-		out[0].Self, out[len(prefix)].Self = steps[0].Self, 0
-	}
-	return out
-}
-
 // The same oracle on a ledger with a membership history: an 8th node pledges
 // and is accepted, the oldest node is removed, and the process restarts, so
 // that the in-memory links are the ones loadState rebuilds from the store for
@@ -372,7 +356,7 @@ func TestVP_C20_membership_restart(t *testing.T) {
 				dep(a, true, victim)
 			}
 		}
-		steps := vpC20Shift(prefix, drawn)
+		steps := vpCWPrepend(prefix, drawn)
 		run := vpCWNew(k, steps)
 		x := &vpC20Ctx{e: e, classes: map[string]bool{}, okChains: map[int]int{}}
 		noteAll := func() {
